@@ -169,7 +169,8 @@ def normalise_model(ans):
 
     def repl(m):
         try:
-            return "f:" + float(Fraction(m.group(1))).hex()
+            x = float(Fraction(m.group(1)))
+            return "f:" + (0.0 if x == 0 else x).hex()        # a tiny negative decimal underflows to -0.0: the sign of zero is normalised on both sides
         except (OverflowError, ValueError, ZeroDivisionError):
             return "f:?"
     out = re.sub(r"f:(-?\d+(?:/\d+)?)", repl, ans)
